@@ -109,6 +109,11 @@ func (w *WorkloadResourceRequest) Validate() error {
 	if w.CPUBind && w.CPURequest > 0 && w.CPULimit > 0 && w.CPULimit > w.CPURequest {
 		w.CPURequest = w.CPULimit
 	}
+	// a bound workload without a limit is limited to what it is bound to; the engine derives
+	// the cpu shares of its fractional core from this amount
+	if w.CPUBind && w.CPURequest > 0 && w.CPULimit == 0 {
+		w.CPULimit = w.CPURequest
+	}
 	return nil
 }
 
